@@ -171,8 +171,8 @@ fn gen_lie(rng: &mut Rng, cfg: &ArrayCfg) -> Lie {
         match cfg.flavour {
             // an enormous claimed length with a zero-sized element cannot fail in `reserve`; the
             // crate then either loops for 2^64 iterations or rejects - keep those out
-            Flavour::ZTok => *[Lie::Minus1, Lie::Plus1, Lie::Plus2, Lie::Zero, Lie::LaterMinus1, Lie::LaterPlus2].get(rng.below(6)).unwrap(),
-            _ => *[Lie::Minus1, Lie::Plus1, Lie::Plus2, Lie::Zero, Lie::HalfMax, Lie::Max, Lie::LaterMinus1, Lie::LaterPlus2].get(rng.below(8)).unwrap(),
+            Flavour::ZTok => *[Lie::Minus1, Lie::Plus1, Lie::Plus2, Lie::Zero, Lie::LaterMinus1, Lie::LaterPlus2, Lie::SloppyHint].get(rng.below(7)).unwrap(),
+            _ => *[Lie::Minus1, Lie::Plus1, Lie::Plus2, Lie::Zero, Lie::HalfMax, Lie::Max, Lie::LaterMinus1, Lie::LaterPlus2, Lie::SloppyHint].get(rng.below(9)).unwrap(),
         }
     } else {
         Lie::Honest
